@@ -28,7 +28,8 @@ TOL = 1e-12
 # theorems that carry a clause of the statement (helpers, concrete instances and rfl restatements excluded)
 CORE_THEOREMS = ["H_nonneg", "H_le_log_n", "H_equal_lengths", "H_perm", "H_scale", "lengths_translate", "E1_translate",
                  "E1_perm", "E1_scale", "H_norm_in_unit", "nonpositive_raises", "keep_without_value_raises",
-                 "inf_dropped", "ED_inf_dropped", "inf_birth_raises", "inf_substituted"]
+                 "inf_dropped", "ED_inf_dropped", "inf_birth_raises", "inf_substituted",
+                 "H_single", "H_pos_of_two", "H_norm_pos"]
 
 
 def gen_barcode(ctx, nmax=12, inf_p=0.25, bad_p=0.0, inf_birth_p=0.0):
